@@ -230,7 +230,11 @@ func runOne(ng *promql.Engine, d *dataset, c *qcase, instant bool) (o runObs) {
 		return runObs{class: cl, msg: err.Error()}
 	}
 	defer qry.Close()
+	t0 := time.Now()
 	res := qry.Exec(ctx)
+	if el := time.Since(t0); el > 300*time.Millisecond && os.Getenv("VERIF_C33_SLOW") != "" {
+		fmt.Fprintf(os.Stderr, "slow %v instant=%v steps=%d step=%d: %s\n", el, instant, c.nsteps, c.step, c.q)
+	}
 	if res.Err != nil {
 		cl := clUser
 		if isInternal(res.Err.Error()) {
@@ -332,6 +336,22 @@ var corpus = [][2]string{
 	{"duration-expr", `rate(foo[step()+1m]) + foo offset (1m*2)`},
 	{"merge-float-hist-stepinv", `-{__name__=~"foo|h"} @ 100`},
 	{"merge-float-float", `-{__name__=~"foo|bar"} @ 100`},
+	{"life-hfraction-classic", `histogram_fraction(0, 1, cbk_bucket)`},
+	{"life-hfraction-classic-rate", `histogram_fraction(0, 10, rate(cbk_bucket[1m]))`},
+	{"life-hquantile-classic", `histogram_quantile(0.9, cbk_bucket)`},
+	{"life-hquantile-sum-rate", `histogram_quantile(0.5, sum by (le, job) (rate(cbk_bucket[2m])))`},
+	{"life-hquantiles-classic", `histogram_quantiles(cbk_bucket, "q", 0.5, 0.99)`},
+	{"life-hquantiles-native", `histogram_quantiles(nh, "q", 0.1, 0.9)`},
+	{"life-hfraction-native", `histogram_fraction(0, 2, nh) + histogram_quantile(0.5, nh)`},
+	{"life-hstats-native", `histogram_count(nh) + histogram_sum(nh) + histogram_avg(nh) + histogram_stddev(nh) + histogram_stdvar(nh)`},
+	{"life-hstats-classic", `histogram_count(cbk_bucket) or histogram_sum(cbk_bucket) or histogram_avg(cbk_bucket)`},
+	{"life-mixed-classic-native", `histogram_quantile(0.9, cnh) or histogram_fraction(0, 1, cnh) or histogram_quantiles(cnh, "q", 0.5)`},
+	{"life-subquery", `max_over_time(histogram_fraction(0, 1, cbk_bucket)[5m:30s])`},
+	{"odd-substep-below-ms", `sum_over_time(foo[1m:0.0004])`},
+	{"odd-substep-half-ms", `sum_over_time(foo[1m:0.0005]) + count_over_time(foo[2:0.001])`},
+	{"odd-range-below-ms", `count_over_time(foo[0.0004]) + rate(foo[1e-9]) + last_over_time(foo[0.001])`},
+	{"odd-offset", `foo offset 0.0004 + foo offset -0.0005 + foo offset 1e9 + sum_over_time(foo[1m:1e9] offset 0.001)`},
+	{"odd-toplevel-subquery", `foo[0.01:0.001] offset 1e-9`},
 	{"hq-empty-label", `-histogram_quantiles(h, "", 0.5)`},
 	{"hq-empty-label-classic", `-histogram_quantiles(b_bucket, "", 0.5, 0.9)`},
 	{"agg-param-varies-expr-invariant", `topk(scalar(foo{job="a",instance="i0"}) / 10, foo @ 300)`},
@@ -381,6 +401,17 @@ func main() {
 		c.rs = gen.Pick(r, []int64{0, 90000, 300000, 600000, -30000})
 		c.step = gen.Pick(r, []int64{15000, 30000, 60000, 7000, 1})
 		c.nsteps = 1 + r.Intn(9)
+		if strings.Contains(q, "histogram_") || strings.HasPrefix(corp, "life-") || r.Chance(1, 12) {
+			// a long range query over the whole grid of the life-cycle metrics (0 .. 20 min and
+			// beyond), so that series start, end, go stale and pause between its steps
+			c.rs = gen.Pick(r, []int64{0, 0, 15000, -60000, 240000})
+			c.step = gen.Pick(r, []int64{15000, 30000, 60000, 45000, 120000})
+			c.nsteps = 12 + r.Intn(40)
+			c.ts = gen.Pick(r, []int64{c.ts, 150000, 700000, 900000})
+		}
+		if strings.HasPrefix(corp, "life-") { // the whole grid, every second scrape
+			c.rs, c.step, c.nsteps = 0, 30000, 44
+		}
 		cases = append(cases, c)
 	}
 	for i, q := range corpus {
